@@ -269,3 +269,11 @@ Theorem C15_reopens_nonvacuous : exists s,
   hd_error (log s) = Some (ERet RIsMaint 0).
 Proof. exact (reopens_nonvacuous c0 (proj1 (proj2 (proj2 C15_table_recognised)))). Qed.
 Print Assumptions C15_reopens_nonvacuous.
+
+(** RimeSyncUserData destroys every session BEFORE it schedules its tasks and starts the worker: while the call is in
+    progress - in particular when it spawns the worker - the session table is empty.  The order is observable on the
+    real code through the event "cleanup" (yield hook in Service::CleanupAllSessions) in every replayed schedule. *)
+Theorem C15_sync_user_data_cleans_first :
+  forall h0 sc s, reach c0 h0 sc s -> in_sync (cpcs s) = true -> sessions s = [].
+Proof. exact (sync_user_data_worker_starts_clean c0). Qed.
+Print Assumptions C15_sync_user_data_cleans_first.
